@@ -5,6 +5,7 @@ import (
 	"go/ast"
 	"go/token"
 	"go/types"
+	"golang.org/x/tools/go/ssa"
 	"sort"
 	"strings"
 )
@@ -164,7 +165,92 @@ func ruleValCons(c *Ctx) {
 		c.undecided("anchor:OFMT", token.NoPos, "storage of OFMT/CONVFMT not found through getSpecial")
 		return
 	}
-	okReaders := map[string]bool{"interp.printArgs": true, "interp.getSpecial": true, "interp.setSpecial": true, "newInterp": true, "interp.resetVars": true}
+	// who may read OFMT: the accessors of the variable, and print's argument writers - by role: the method the
+	// Print opcode hands its argument list to, and every function whose only callers are such writers
+	okReaders := map[string]bool{"interp.getSpecial": true, "interp.setSpecial": true, "newInterp": true}
+	printWriters := map[string]bool{}
+	if vm := buildVMModel(c); vm != nil {
+		if cc := vm.clauses["Print"]; cc != nil {
+			ast.Inspect(cc, func(n ast.Node) bool {
+				call, ok := n.(*ast.CallExpr)
+				if !ok {
+					return true
+				}
+				f := calleeOf(info, call)
+				if f == nil || f.Pkg() != p.Types {
+					return true
+				}
+				sig := f.Type().(*types.Signature)
+				for i := 0; i < sig.Params().Len(); i++ {
+					if sl, ok := sig.Params().At(i).Type().Underlying().(*types.Slice); ok && isNamed(sl.Elem(), modPath+"/interp", "value") {
+						printWriters["interp."+f.Name()] = true
+					}
+				}
+				return true
+			})
+		}
+	}
+	callersOf := map[string]map[string]bool{}
+	for _, fd := range c.allFuncDecls("interp") {
+		if fd.Body == nil {
+			continue
+		}
+		from := declName(fd)
+		ast.Inspect(fd.Body, func(n ast.Node) bool {
+			if call, ok := n.(*ast.CallExpr); ok {
+				if f := calleeOf(info, call); f != nil && f.Pkg() == p.Types {
+					name := f.Name()
+					if sig := f.Type().(*types.Signature); sig.Recv() != nil {
+						if nm := named(deref(sig.Recv().Type())); nm != nil {
+							name = nm.Obj().Name() + "." + name
+						}
+					}
+					if callersOf[name] == nil {
+						callersOf[name] = map[string]bool{}
+					}
+					callersOf[name][from] = true
+				}
+			}
+			return true
+		})
+	}
+	for changed := true; changed; {
+		changed = false
+		for callee, from := range callersOf {
+			if printWriters[callee] || len(from) == 0 {
+				continue
+			}
+			all := true
+			for f := range from {
+				if !printWriters[f] {
+					all = false
+				}
+			}
+			if all {
+				printWriters[callee] = true
+				changed = true
+			}
+		}
+	}
+	for w := range printWriters {
+		okReaders[w] = true
+	}
+	// functions that assign the field are accessors too (reset code)
+	for _, fd := range c.allFuncDecls("interp") {
+		if fd.Body == nil {
+			continue
+		}
+		ast.Inspect(fd.Body, func(n ast.Node) bool {
+			if as, ok := n.(*ast.AssignStmt); ok {
+				for _, l := range as.Lhs {
+					if se, ok := l.(*ast.SelectorExpr); ok && info.Uses[se.Sel] == ofmt {
+						okReaders[declName(fd)] = true
+					}
+				}
+			}
+			return true
+		})
+	}
 	nOfmt := 0
 	strCallers := map[string]string{}
 	for _, fd := range c.allFuncDecls("interp") {
@@ -193,11 +279,14 @@ func ruleValCons(c *Ctx) {
 				switch fname {
 				case "interp.toString":
 					want = "p." + convfmt.Name()
-				case "interp.printArgs":
-					want = "p." + ofmt.Name()
 				case "value.String", "returnValue.Error":
 					return true // debugging representations
 				default:
+					if printWriters[fname] {
+						want = "p." + ofmt.Name()
+						strCallers["<print writer>"] = arg
+						break
+					}
 					c.bad("str-caller:"+fname, x.Pos(), "%s converts a number to a string by calling value.str(%s) directly: conversions must go through interp.toString (CONVFMT); only print uses OFMT", fname, arg)
 					return true
 				}
@@ -207,7 +296,7 @@ func ruleValCons(c *Ctx) {
 		})
 	}
 	c.atLeast("readers of the OFMT field", nOfmt, 2)
-	c.check(strCallers["interp.toString"] != "" && strCallers["interp.printArgs"] != "", "str-callers-present", token.NoPos, "toString (CONVFMT) and printArgs (OFMT) are the conversion points", "toString/printArgs no longer call value.str: conversion points moved, rule anchors lost")
+	c.check(strCallers["interp.toString"] != "" && strCallers["<print writer>"] != "" && len(printWriters) > 0, "str-callers-present", token.NoPos, "toString (CONVFMT) and print's argument writer (OFMT) are the conversion points", "toString / print's argument writer no longer call value.str: conversion points moved, rule anchors lost")
 
 	// (3) recognisers
 	rec := map[string]string{}
@@ -232,47 +321,93 @@ func ruleValCons(c *Ctx) {
 	c.check(rec["value.isTrueStr"] != "" && rec["value.isTrueStr"] == rec["value.boolean"], "recogniser:isTrueStr=boolean", token.NoPos,
 		"isTrueStr and boolean use the same whole-string recogniser ("+rec["value.boolean"]+")", "isTrueStr uses "+rec["value.isTrueStr"]+" but boolean uses "+rec["value.boolean"]+": a numeric-looking input string would be a number in comparisons and something else in truth tests")
 	c.check(rec["value.num"] == "parseFloatPrefix", "recogniser:num", token.NoPos, "num() uses the prefix parser", "num() does not use the prefix parser (uses "+rec["value.num"]+")")
-	// shape: in the numeric-string case of isTrueStr and boolean nothing is decided before the recogniser has been consulted
+	// in the numeric-string case of isTrueStr and boolean nothing is decided before the recogniser has been
+	// consulted: the method is specialised to v.typ == typeNumStr on the SSA form (branches on the type field
+	// decided, others pruned); with the blocks that call parseFloat removed, no return may stay reachable
+	numStrVal := int64(-1)
+	for _, k := range c.constsOfType("interp", "valueType") {
+		if k.Name() == "typeNumStr" {
+			if v, ok := constantInt(k); ok {
+				numStrVal = v
+			}
+		}
+	}
 	for _, fn := range []string{"value.isTrueStr", "value.boolean"} {
-		fd := c.funcDecl("interp", fn)
-		if fd == nil {
+		sf := c.ssaFunc("interp", fn)
+		if sf == nil || numStrVal < 0 {
+			c.undecided("recogniser-shape:"+fn, token.NoPos, "%s / typeNumStr not found on the SSA form", fn)
 			continue
 		}
-		ast.Inspect(fd.Body, func(n ast.Node) bool {
-			cc, ok := n.(*ast.CaseClause)
-			if !ok || len(cc.List) != 1 || constName(info, cc.List[0]) != "typeNumStr" {
-				return true
+		isTypField := func(v ssa.Value) (int64, bool) {
+			switch x := v.(type) {
+			case *ssa.Field:
+				if fieldNameOf(x.X.Type(), x.Field) == "typ" {
+					return numStrVal, true
+				}
+			case *ssa.UnOp:
+				if fa, ok := x.X.(*ssa.FieldAddr); ok && x.Op == token.MUL {
+					if f, _ := fieldOfAddr(fa); f != nil && f.Name() == "typ" {
+						return numStrVal, true
+					}
+				}
 			}
-			var callPos token.Pos
-			ast.Inspect(&ast.BlockStmt{List: cc.Body}, func(m ast.Node) bool {
-				if call, ok := m.(*ast.CallExpr); ok && isIdent(call.Fun, "parseFloat") && callPos == token.NoPos {
-					callPos = call.Pos()
+			return 0, false
+		}
+		ctx := &specCtx{fn: sf, sp: &spec{pkg: sf.Pkg, ints: map[string]int64{}, extraInt: isTypField}, bind: map[*ssa.Parameter]specBind{}}
+		var cuts []cutEdge
+		nCalls := 0
+		for b := range ctx.reached() {
+			calls := false
+			for _, in := range b.Instrs {
+				if call, ok := in.(*ssa.Call); ok {
+					if cal := call.Call.StaticCallee(); cal != nil && cal.Name() == "parseFloat" {
+						calls = true
+					}
 				}
-				return true
-			})
-			early := token.NoPos
-			ast.Inspect(&ast.BlockStmt{List: cc.Body}, func(m ast.Node) bool {
-				if r, ok := m.(*ast.ReturnStmt); ok && (callPos == token.NoPos || r.Pos() < callPos) {
-					early = r.Pos()
+			}
+			if calls {
+				nCalls++
+				for i := range b.Succs {
+					cuts = append(cuts, cutEdge{b, i})
 				}
-				return true
-			})
-			c.check(callPos != token.NoPos && early == token.NoPos, "recogniser-shape:"+fn, cc.Pos(), fn+": every outcome for input-derived text is decided after parseFloat has classified it", fn+" decides the outcome for some input-derived text before (or without) consulting parseFloat: such text is classified differently by comparisons and by truth tests")
-			return false
-		})
+			}
+		}
+		// returns reachable without leaving a parseFloat block
+		early := 0
+		for _, r := range returnsIn(ctx.reachable(sf.Blocks[0], cuts)) {
+			callsHere := false
+			for _, in := range r.Block().Instrs {
+				if call, ok := in.(*ssa.Call); ok {
+					if cal := call.Call.StaticCallee(); cal != nil && cal.Name() == "parseFloat" {
+						callsHere = true
+					}
+				}
+			}
+			if !callsHere {
+				early++
+			}
+		}
+		c.check(nCalls > 0 && early == 0, "recogniser-shape:"+fn, sf.Pos(), fn+": for input-derived text every outcome is decided after parseFloat has classified it", fn+" decides the outcome for some input-derived text before (or without) consulting parseFloat: such text is classified differently by comparisons and by truth tests")
 	}
-	// print's writer never converts with CONVFMT
-	if fd := c.funcDecl("interp", "interp.printArgs"); fd != nil {
+	// print's writers never convert with CONVFMT
+	{
 		bad := token.NoPos
-		ast.Inspect(fd.Body, func(n ast.Node) bool {
-			if call, ok := n.(*ast.CallExpr); ok {
-				if se, ok := call.Fun.(*ast.SelectorExpr); ok && se.Sel.Name == "toString" {
-					bad = call.Pos()
-				}
+		nW := 0
+		for _, fd := range c.allFuncDecls("interp") {
+			if fd.Body == nil || !printWriters[declName(fd)] {
+				continue
 			}
-			return true
-		})
-		c.check(bad == token.NoPos, "print-uses-ofmt", bad, "printArgs converts every argument with OFMT, in every output mode", "printArgs converts an argument with toString (CONVFMT): in that output mode `print` ignores OFMT")
+			nW++
+			ast.Inspect(fd.Body, func(n ast.Node) bool {
+				if call, ok := n.(*ast.CallExpr); ok {
+					if se, ok := call.Fun.(*ast.SelectorExpr); ok && se.Sel.Name == "toString" {
+						bad = call.Pos()
+					}
+				}
+				return true
+			})
+		}
+		c.check(bad == token.NoPos && nW > 0, "print-uses-ofmt", bad, "print's argument writer converts every argument with OFMT, in every output mode", "print's argument writer converts an argument with toString (CONVFMT): in that output mode `print` ignores OFMT")
 	}
 	// (4) the whole-string recogniser and the prefix converter agree on what surrounds and what bounds a number
 	ruleNumParse(c)
